@@ -278,6 +278,9 @@ def init_setup(I):
         else:
             items.append(NONE)
     I.st.ghost['GIVEN'] = items
+    b_ = 'Message.__init__: the number of positional arguments is bounded (every str/bytes/None combination of at most 3); their contents are unbounded'
+    if b_ not in I.bounded_loops:
+        I.bounded_loops.append(b_)
     kw = {}
     if I.st.choice(2, 'with_prefix') == 1:
         kw['prefix'] = sym(I, 'prefix', Str)
